@@ -121,8 +121,11 @@ class C04(Prop):
                 for sp in specs:
                     if sp['t'] in M0_OFFSET and rng.random() < 0.25:
                         sp['md'], sp['M0'] = '', True
-                junk = rng.choice(['', '', 'ee', '0000000000ff', '00000001' + 'ff' * 4])  # undecodable but delimited bodies
-                c_undec = junk in ('ee', '0000000000ff')      # shorter than a header / unknown frame type
+                # undecodable but delimited bodies; the last four: ERROR frames whose 32-bit code is none the protocol defines (reserved 0, a gap,
+                # the application range, the reserved top value) - no frame may come out of them
+                BAD_ERR = ['000000012c00' + c + '6869' for c in ('00000000', '00000105', '00000301', 'fffffffe')]
+                junk = rng.choice(['', '', 'ee', '0000000000ff', '00000001' + 'ff' * 4] + BAD_ERR)
+                c_undec = junk in ('ee', '0000000000ff') or junk in BAD_ERR      # shorter than a header / unknown frame type / undefined error code
                 if rng.random() < 0.3:
                     # a known frame type cut short, with or without the IGNORE flag: dropped silently / an invalid-frame marker, never a frame
                     b = bytearray(FR.build(FR.gen_spec(rng)).serialize())
